@@ -467,6 +467,75 @@ def _is_sum_of_squares(expr):
     return True
 
 
+def _collect_mix(i, out):
+    if isinstance(i, tuple) and i:
+        if i[0] == "MIX":
+            out.append(i)
+            for t_, _ in i[1]:
+                _collect_mix(t_, out)
+        elif i[0] == "G":
+            for j in i[2]:
+                _collect_mix(j, out)
+        elif i[0] in ("O", "DIV", "MOD"):
+            _collect_mix(i[1], out)
+
+
+def _replace_index(i, old, new):
+    if i == old:
+        return new
+    if isinstance(i, tuple) and i:
+        if i[0] == "MIX":
+            return ("MIX", tuple((_replace_index(t_, old, new), k) for t_, k in i[1]))
+        if i[0] == "G":
+            return ("G", i[1], tuple(_replace_index(j, old, new) for j in i[2]))
+        if i[0] in ("O", "DIV", "MOD"):
+            return (i[0], _replace_index(i[1], old, new), i[2])
+    return i
+
+
+def _merge_mix(t):
+    """sum_{a,b} f(MIX(a,b)) where a, b are bound and occur only inside that very MIX term  ==  sum_k f(k), k < |a|*|b|
+    (a reshape split a digit of an opaque tensor and the contraction runs over both halves)."""
+    mixes = []
+    for a, _ in t.facs:
+        if a[0] == "E":
+            for i in a[2]:
+                _collect_mix(i, mixes)
+    for m in mixes:
+        comps = [c for c, _ in m[1]]
+        if not all(isinstance(c, str) and c in t.bound for c in comps) or len(set(comps)) != len(comps):
+            continue
+        # every occurrence of each component must be inside exactly this MIX term
+        ok = True
+        for a, _ in t.facs:
+            if a[0] != "E":
+                if a_vars(a) & set(comps):
+                    ok = False
+                    break
+                continue
+            for i in a[2]:
+                if i == m:
+                    continue
+                if i_vars(i) & set(comps):
+                    ok = False
+                    break
+            if not ok:
+                break
+        if not ok:
+            continue
+        size = 1
+        for c in comps:
+            size = size * VSIZE[c]
+        k = fresh(size, "b")
+        nf = []
+        for a, e in t.facs:
+            if a[0] == "E":
+                a = ("E", a[1], tuple(_replace_index(i, m, k) for i in a[2]), a[3])
+            nf.append((a, e))
+        return Term(t.coef, [b for b in t.bound if b not in comps] + [k], nf)
+    return None
+
+
 def _ortho_rewrite(coef, bound, facs):
     """sum_{p} U[p.., a] conj(U[p.., b]) -> delta(a,b)   (ORTHO[name] == 0: orthonormal columns; the row index may be a
     multi-index because of reshapes), resp. sum_{q} V[a, q..] conj(V[b, q..]) -> delta(a,b)  (ORTHO[name] == 1)."""
@@ -646,6 +715,10 @@ def simplify_term(t):
             else:
                 nf.append((a, e))
         return simplify_term(Term(coef2, t.bound, nf))
+    if t.bound:
+        merged = _merge_mix(t)
+        if merged is not None:
+            return simplify_term(merged)
     # hypothesis rewriting first (before concrete-size expansion destroys the contraction pattern)
     if t.bound and (FACTORISATIONS or ORTHO):
         d0 = dict(t.facs)
